@@ -125,6 +125,7 @@ def run(ctx):
     if mism:
         ctx.broken.append('correspondence:find_missing_edges vs model/Missing.v')
     warnings_case(ctx)
+    interleaved_blocks(ctx, ctx.n(30, 300))
     gate(ctx)
 
 
@@ -210,6 +211,78 @@ def warnings_case(ctx):
                 break
 
 
+def interleaved_blocks(ctx, n, extra=()):
+    """residues that stem from a multi-residue block (from_itp) whose atoms are not listed residue by residue (backbone
+    beads first, side-chain beads later): every residue-graph edge is realised by a bond or reported, from a recount on
+    the finished molecule that does not use the fragment graphs"""
+    import contextlib
+    import networkx as nx
+    from polyply import MetaMolecule, MapToMolecule, ApplyLinks
+    from polyply.src.graph_utils import find_missing_edges
+    rng = ctx.rng
+    todo = list(extra)
+    for _ in range(n):
+        nres = rng.randint(2, 4)
+        sizes = [rng.randint(1, 3) for _ in range(nres)]
+        atoms = [(r, k) for r in range(nres) for k in range(sizes[r])]
+        if rng.random() < 0.8:
+            rng.shuffle(atoms)
+        # the block ends on an atom of its highest residue (vermouth takes the residue offset from the last atom)
+        last = rng.choice([a for a in atoms if a[0] == nres - 1])
+        atoms.remove(last)
+        atoms.append(last)
+        index = {a: i + 1 for i, a in enumerate(atoms)}
+        bonds = [(index[(r, k)], index[(r, k + 1)]) for r in range(nres) for k in range(sizes[r] - 1)]
+        redges = []
+        for r in range(1, nres):
+            q = rng.randrange(r)
+            if rng.random() < 0.85:       # otherwise the two residues are joined in the residue graph only
+                bonds.append((index[(q, rng.randrange(sizes[q]))], index[(r, rng.randrange(sizes[r]))]))
+            redges.append((q, r))
+        todo.append({'atoms': [[r, k] for r, k in atoms], 'bonds': bonds, 'redges': redges, 'tail': rng.randint(0, 2), 'link': rng.random() < 0.7})
+    for case in todo:
+        atoms = [tuple(a) for a in case['atoms']]
+        nres = 1 + max(r for r, _ in atoms)
+        text = ['[ moleculetype ]', 'FRG 1', '[ atoms ]']
+        for i, (r, k) in enumerate(atoms):
+            text.append(f"{i + 1} P1 {r + 1} R{'ABCD'[r]} {'ABC'[k]}{r} {i + 1} 0.0 45")
+        text.append('[ bonds ]')
+        text += [f'{a} {b} 1 0.3 1000' for a, b in case['bonds']]
+        text += ['[ moleculetype ]', 'PEO 1', '[ atoms ]', '1 P1 1 PEO EO 1 0.0 45']
+        if case['link']:
+            text += ['[ link ]', 'resname "PEO"', '[ bonds ]', 'EO +EO 1 0.33 7000']
+        g = nx.Graph()
+        for r in range(nres):
+            g.add_node(r, resname=f"R{'ABCD'[r]}", resid=r + 1, from_itp='FRG')
+        g.add_edges_from(tuple(e) for e in case['redges'])
+        for t in range(case['tail']):
+            g.add_node(nres + t, resname='PEO', resid=nres + t + 1)
+            g.add_edge(nres + t - 1, nres + t)
+        sink = io.StringIO()
+        ctx.case(('interleaved', json.dumps(case, sort_keys=True)), nontrivial=atoms != sorted(atoms), sample={'block_atoms': case['atoms'][:8]})
+        ctx.feature('multi_residue_block_atoms_interleaved' if [r for r, _ in atoms] != sorted(r for r, _ in atoms) else 'multi_residue_block_atoms_contiguous')
+        try:
+            with contextlib.redirect_stderr(sink), contextlib.redirect_stdout(sink):
+                vff = ffgen.load_ff('\n'.join(text) + '\n')
+                meta = MetaMolecule(g, force_field=vff, mol_name='m')
+                MapToMolecule(vff).run_molecule(meta)
+                ApplyLinks().run_molecule(meta)
+                records = sorted(tuple(sorted((int(r['idxA']), int(r['idxB'])))) for r in find_missing_edges(meta, meta.molecule))
+        except Exception as exc:  # noqa
+            ctx.violation('spec', f"the pipeline failed on a multi-residue block with interleaved atoms: {type(exc).__name__}: {exc}",
+                          {'interleaved': case})
+            continue
+        mol = meta.molecule
+        joined = {tuple(sorted((int(mol.nodes[a]['resid']), int(mol.nodes[b]['resid'])))) for a, b in mol.edges
+                  if mol.nodes[a]['resid'] != mol.nodes[b]['resid']}
+        want = sorted(tuple(sorted((int(g.nodes[a]['resid']), int(g.nodes[b]['resid'])))) for a, b in g.edges
+                      if tuple(sorted((int(g.nodes[a]['resid']), int(g.nodes[b]['resid'])))) not in joined)
+        if records != want:
+            ctx.violation('spec', f"C10 fails on the implementation: missing-link records {records}, but the residue-graph edges without any "
+                          f"atom-level edge between the two residues are {want} (multi-residue block, atoms listed in the order {case['atoms']})",
+                          {'interleaved': case})
+
+
 def gate(ctx):
     """gen_coords refuses disconnected molecules; F6: only at the residue level"""
     import numpy as np
@@ -271,4 +344,9 @@ def replay(ctx, data):
             res = systems.run_gen_coords(wd, data['top'], box=np.array([5.0, 5.0, 5.0]), timeout=40)
         print('replay: gen_coords', 'succeeded' if res['ok'] else f"raised {res.get('exc_type')}")
         return 1 if res['ok'] else 0
+    if 'interleaved' in data:
+        before = len(ctx.violations)
+        interleaved_blocks(ctx, 0, extra=[data['interleaved']])
+        print('replay:', ctx.violations[-1]['what'][:300] if len(ctx.violations) > before else 'statement satisfied on this input')
+        return 1 if len(ctx.violations) > before else 0
     return 0
